@@ -689,7 +689,17 @@ class StmtMixin(object):
         cc.contract = contract
         cc.cfg = dict(obj.cfg)
         cc.guard = self.guard
+        cns = self.namespace()
+        cns['callee'] = obj
+        for k in range(len(ps)):
+            if ps[k].get('name') in ns:
+                cns['carg%d' % k] = ns[ps[k].get('name')]
+        self.anchor('call.%s.before' % m['name'], cns)
         self.emit(cc)
+        if ret is not None:
+            cns = dict(cns)
+            cns['ret'] = ret
+        self.anchor('call.%s.after' % m['name'], cns)
         return ret if ret is not None else VOID
 
     # ------------------------------------------------------------------------------------------------------ entry
@@ -716,11 +726,21 @@ class StmtMixin(object):
             if pname is None:
                 continue
             tstr = p['type']['qualType']
+            ap = self.opt.get('abstract_params', {})
+            if pname in ap:
+                v = ap[pname](self) if callable(ap[pname]) else ap[pname]
+                params[pname] = v
+                fr.scopes[0][pname] = v
+                continue
             td = resolve(tstr, tenv)
             if td.kind == 'ptr' and td.to.kind == 'int':
                 tgt = self.declare(ScalarVar('p_%s_val' % pname, INT))
                 self.globals_s['p_%s_null' % pname] = BOOL
                 v = PtrV(E.var('p_%s_null' % pname, BOOL), tgt, 'param')
+            elif td.kind == 'ptr' and ('p_%s_null' % pname) in self.pins:
+                # pointer parameter with pinned nullness (one verification task per case)
+                isnull = bool(self.pins['p_%s_null' % pname])
+                v = PtrV(E.const(isnull), None if isnull else self.make_value(td.to, 'p_' + pname), 'param')
             elif td.kind == 'ptr':
                 v = self.declare(PtrSlot('p_' + pname, td.to))
                 if td.to.kind in ('string', 'real', 'int', 'bool'):
